@@ -47,13 +47,32 @@ func tokenDecoder(v interface{}) (*xml.Decoder, error) {
 	return xml.NewDecoder(&b), nil
 }
 
-// rawTokenReader maps a decoders RawToken method onto its Token method.
-type rawTokenReader struct {
+// nsTokenReader reads namespace-resolved tokens from a decoder and removes the
+// namespace declarations from start elements.
+// The encoder that the tokens are copied to declares namespaces itself based
+// on the names of elements and attributes, so leaving the declarations in
+// would result in duplicate xmlns attributes, but not resolving the
+// namespaces (as RawToken does) would result in prefixed names, such as
+// xml:lang, being written with their prefix as the namespace.
+type nsTokenReader struct {
 	*xml.Decoder
 }
 
-func (r rawTokenReader) Token() (xml.Token, error) {
-	return r.RawToken()
+func (r nsTokenReader) Token() (xml.Token, error) {
+	tok, err := r.Decoder.Token()
+	start, ok := tok.(xml.StartElement)
+	if !ok {
+		return tok, err
+	}
+	attrs := start.Attr[:0]
+	for _, attr := range start.Attr {
+		if attr.Name.Space == "xmlns" || (attr.Name.Space == "" && attr.Name.Local == "xmlns" && start.Name.Space != "") {
+			continue
+		}
+		attrs = append(attrs, attr)
+	}
+	start.Attr = attrs
+	return start, err
 }
 
 // EncodeXML writes the XML encoding of v to the stream.
@@ -72,7 +91,7 @@ func EncodeXML(w xmlstream.TokenWriter, v interface{}) error {
 	if err != nil {
 		return err
 	}
-	_, err = xmlstream.Copy(w, rawTokenReader{Decoder: d})
+	_, err = xmlstream.Copy(w, nsTokenReader{Decoder: d})
 	if err != nil {
 		return err
 	}
@@ -100,7 +119,7 @@ func EncodeXMLElement(w xmlstream.TokenWriter, v interface{}, start xml.StartEle
 	if err != nil {
 		return err
 	}
-	_, err = xmlstream.Copy(w, rawTokenReader{Decoder: d})
+	_, err = xmlstream.Copy(w, nsTokenReader{Decoder: d})
 	if err != nil {
 		return err
 	}
